@@ -38,7 +38,9 @@ RULE = ('case = one generated message; evaluations = the Envelope operations run
         'round trip, re-parse; or encode_7bit). kinds: wf (property input class, judged on body identity, header '
         'fields, copy/pickle/re-parse fixed points), arb (arbitrary bytes: no header block, over-long lines, blank '
         'continuation lines, mutated well-formed messages, odd MIME headers; judged on never-raises only), 7bit '
-        '(text/plain; charset=utf-8, CRLF; base64 / quoted-printable / no encoder). non-trivial & distinct = distinct '
+        '(text/plain; charset=utf-8, CRLF raw 8-bit body; Content-Transfer-Encoding field absent / 7bit / 8bit / binary / '
+        'base64 / quoted-printable in any case / unknown token, i.e. including mislabelled bodies; base64 / '
+        'quoted-printable / no encoder). non-trivial & distinct = distinct '
         'wf message with a folded or 8-bit header or whose body starts with a blank or dot line or contains NUL or a '
         'lone CR; or a distinct 7bit message with non-ASCII text')
 ASSUMPTIONS = ['"same values" is compared on unfolded values (line break before SP/TAB dropped, white space after the '
@@ -350,6 +352,12 @@ def gen_text(rnd, ascii_only=False):
     return text
 
 
+CTE_LABELS = {'absent': [None], '7bit': [b'7bit', b'7BIT'], '8bit': [b'8bit', b'8BIT'], 'binary': [b'binary', b'Binary'],
+              'base64': [b'base64', b'Base64', b'BASE64', b'bAsE64'],
+              'quoted-printable': [b'quoted-printable', b'Quoted-Printable', b'QUOTED-PRINTABLE'],
+              'unknown': [b'x-uuencode', b'gzip64', b'base64x', b'quoted', b'8bitmime']}
+
+
 def gen_7bit(rnd):
     ascii_only = rnd.random() < 0.08
     text = gen_text(rnd, ascii_only)
@@ -357,8 +365,12 @@ def gen_7bit(rnd):
                                             b'text/plain; charset=utf-8; format=flowed', b'TEXT/PLAIN; CHARSET=UTF-8'])]
     if rnd.random() < 0.7:
         hdrs.append(b'MIME-Version: 1.0')
-    if rnd.random() < 0.5:
-        hdrs.append(b'Content-Transfer-Encoding: ' + rnd.choice([b'8bit', b'8BIT', b'binary']))
+    # the label the header block carries for the (raw 8-bit) body: honest, absent, or a *mislabel* --
+    # encode_7bit must go by the bytes, never by the label
+    label = rnd.choice(sorted(CTE_LABELS))
+    cte = rnd.choice(CTE_LABELS[label])
+    if cte is not None:
+        hdrs.append(b'Content-Transfer-Encoding:' + rnd.choice([b' ', b' ', b'', b'  ']) + cte)
     if rnd.random() < 0.7:
         hdrs.append(b'Subject: test ' + bytes(rnd.choice(ALNUM) for _ in range(8)))
     if rnd.random() < 0.5:
@@ -366,7 +378,7 @@ def gen_7bit(rnd):
     rnd.shuffle(hdrs)
     raw = b'\r\n'.join(hdrs) + b'\r\n\r\n' + text.encode('utf-8')
     return {'kind': '7bit', 'raw': raw, 'text': text, 'encoder': rnd.choice(['base64', 'quopri', 'none']),
-            'rs': rnd.randrange(1 << 30)}
+            'cte': label, 'rs': rnd.randrange(1 << 30)}
 
 
 def gen_cases(tier, seed, shard, nshards):
@@ -578,14 +590,16 @@ ENCODERS = {'base64': encode_base64, 'quopri': encode_quopri, 'none': None}
 
 def run_7bit(case, R):
     raw, text, encname = case['raw'], case['text'], case['encoder']
+    label = case.get('cte', 'absent')
     eightbit = not text.isascii()
     if eightbit:
         R.nontrivial(raw)
+    R.observe('7bit-cte-label', (encname, label, eightbit))
     R.observe('7bit-shape', (encname, eightbit, text.endswith('\r\n'), text.count('\r\n') > 1,
                              any(len(ln) > 76 for ln in text.split('\r\n'))))
 
     def viol(mech, what, **kw):
-        d = {'raw': raw, 'text': text, 'encoder': encname}
+        d = {'raw': raw, 'text': text, 'encoder': encname, 'cte_label_in_header_block': label}
         d.update(kw)
         R.violation(mech, what, d)
 
@@ -605,8 +619,8 @@ def run_7bit(case, R):
         if eightbit:
             R.hit('7bit-refusal-judged')
             h, b = env.flatten()
-            viol('encode-7bit/no-encoder/8bit-passed-on', 'no encoder given and the 8-bit body was not refused',
-                 flattened=(h, b))
+            viol('encode-7bit/no-encoder/8bit-passed-on' + ('' if label in ('absent', '8bit') else '/cte-label-' + label),
+                 'no encoder given and the 8-bit body was not refused', flattened=(h, b))
         return
     try:
         env.encode_7bit(ENCODERS[encname])
@@ -615,8 +629,12 @@ def run_7bit(case, R):
         viol('encode-7bit/%s/raises/%s' % (encname, where(exc)), 'encode_7bit raised %r' % exc)
         return
     R.hit('7bit-ascii-and-text-compared')
+    if eightbit:
+        R.count('7bit-ascii-judged/cte-label-' + label)
     if not (h + b).isascii():
-        viol('encode-7bit/%s/not-ascii' % encname, 'result of encode_7bit contains 8-bit bytes', flattened=(h, b))
+        viol('encode-7bit/%s/8bit-passed-on/cte-label-%s' % (encname, label),
+             'encoder given, but the result of encode_7bit still contains 8-bit bytes (header block labels the '
+             'body %s)' % label, flattened=(h, b))
         return
     m = email.message_from_bytes(h + b)
     try:
